@@ -9,6 +9,7 @@ import (
 	"github.com/relex/slog-agent/base/bconfig"
 	"github.com/relex/slog-agent/orchestrate/obase"
 	"golang.org/x/exp/maps"
+	"golang.org/x/exp/slices"
 )
 
 // Config defines the configuration for ByKeySet Orchestrator
@@ -43,6 +44,11 @@ func (cfg *Config) VerifyConfig(schema base.LogSchema) ([]string, error) {
 	}
 	if _, lerr := schema.CreateFieldLocators(cfg.Keys); lerr != nil {
 		return nil, fmt.Errorf(".keys: %w", lerr)
+	}
+	for i, key := range cfg.Keys {
+		if slices.Index(cfg.Keys[:i], key) != -1 {
+			return nil, fmt.Errorf(".keys[%d]: field '%s' is listed more than once", i, key)
+		}
 	}
 
 	if len(cfg.TagTemplate) == 0 {
